@@ -127,6 +127,18 @@ let err_code (e : M.err) : string =
 let suite_auth (line : string) : string =
   let line = String.trim line in
   if line = "W" then "W"
+  else if String.length line > 2 && line.[0] = 'S' && line.[1] = ' ' then begin
+    let t = toks_of_line (String.sub line 2 (String.length line - 2)) in
+    let fl = nz t in let au = nz t in let ad = nz t in let sg = nz t in let allow = nb t in
+    bit (M.is_signer_authorized fl au ad sg allow) ^ " " ^ bit (M.account_not_frozen_for_authority fl au sg)
+  end
+  else if String.length line > 2 && line.[0] = 'G' && line.[1] = ' ' then begin
+    let t = toks_of_line (String.sub line 2 (String.length line - 2)) in
+    let st = match ni t with 0 -> M.Paused | 1 -> M.Operational | 2 -> M.ReduceOnly | _ -> M.KilledByBankruptcy in
+    let k = match ni t with 0 -> M.Unrestricted | 1 -> M.FailsInReduceState | 2 -> M.FailsInPausedState
+                          | _ -> M.FailsIfPausedOrReduceState in
+    match M.validate_bank_state st k with M.Ok _ -> "OK" | M.Err e -> err_s e
+  end
   else begin
     let h = kv line in
     let get k = match Hashtbl.find_opt h k with Some v -> v | None -> failwith ("case lacks " ^ k) in
